@@ -42,7 +42,7 @@ def spec_heap(schema) -> H:
     return _HS[k]
 
 
-def agree(hs: H, h: H, skip=('f_attack_step_nodes',)):
+def agree(hs: H, h: H, skip=('f_attack_step_nodes',), both=False):
     """every object of HS is unchanged in h — except the extended property `attack_step_nodes` that generation writes
     on assets (outside the model's serialized view)"""
     x = A('x!ag')
@@ -50,7 +50,8 @@ def agree(hs: H, h: H, skip=('f_attack_step_nodes',)):
     for n in hs.arr:
         if n in skip:
             continue
-        out.append(FA([x], z3.Implies(z3.And(x >= 0, x < hs.alloc), z3.Select(h.arr[n], x) == z3.Select(hs.arr[n], x)), [z3.Select(h.arr[n], x)]))
+        out.append(FA([x], z3.Implies(z3.And(x >= 0, x < hs.alloc), z3.Select(h.arr[n], x) == z3.Select(hs.arr[n], x)),
+                      [z3.Select(h.arr[n], x), z3.Select(hs.arr[n], x)] if both else [z3.Select(h.arr[n], x)]))
     return z3.And(*out)
 
 
